@@ -178,7 +178,7 @@ def run(run):
     shard, nshards = run.shard
     rng = rng_for(run.seed, "c02", shard)
     nfam = 420 if run.tier == "quick" else 2200
-    profile = {"allow_regex_nokeep_single": False, "p_move": 0.16, "p_backward_at": 0.1, "allow_raw_callbacks": False}
+    profile = {"allow_regex_nokeep_single": False, "p_move": 0.16, "p_backward_at": 0.1, "allow_raw_callbacks": False, "p_describe": 0.08}
     if run.tier == "thorough":
         profile["max_depth"] = 4
     if shard == 0:
